@@ -45,6 +45,12 @@ def encode : Err → Enc
       if known then .leaf msg (detOf P e [msg] (.errno n arch perm exist notExist timeout temp)) [] []
       else .leaf msg (detOf P e [] .none) [] []
     | .testErr => .leaf (text e) (detOf P e [] .testErr) [] []
+    | .grpcStatus c m nd =>
+      if known then .leaf m (detOf P e [] (.status c m nd)) [] []
+      else .leaf (text e) (detOf P e [] .none) [] []
+    | .gogoStatus c m nd =>
+      if known then .leaf m (detOf P e [] (.status c m nd)) [] []
+      else .leaf (text e) (detOf P e [] .none) [] []
     | _ => .leaf (text e) (detOf P e (layerDetails P vf e) .none) [] []
   | .barrier id smsg masked =>
     let e := Err.barrier id smsg masked
@@ -116,6 +122,8 @@ abbrev k_deadline : Str := LeafKind.deadline.ty.full
 abbrev k_errno : Str := (LeafKind.errno 0 [] false false false false false).ty.full
 abbrev k_leafError : Str := (LeafKind.leafError []).ty.full
 abbrev k_unimplemented : Str := (LeafKind.unimplemented [] [] []).ty.full
+abbrev k_grpcStatus : Str := (LeafKind.grpcStatus 0 [] 0).ty.full
+abbrev k_gogoStatus : Str := (LeafKind.gogoStatus 0 [] 0).ty.full
 abbrev k_barrier : Str := tnBarrier.full
 abbrev k_barrierPrev : Str := tnBarrierPrev.full
 abbrev k_join : Str := MultiKind.join.ty.full
@@ -141,6 +149,7 @@ abbrev k_syscallError : Str := (WrapKind.syscallError []).ty.full
 /-- The decoder families registered by the library's init() functions. -/
 inductive KeyClass
   | errorString | deadline | errno | leafError | unimplemented | barrier | barrierPrev | join
+  | grpcStatus | gogoStatus
   | pkgWithMessage | pathError | linkError | syscallError | withPrefix | withNewMessage | withHint
   | withDetail | withMark | withSecondary | withContext | withHTTPCode | withGrpcCode | withDomain
   | withIssueLink | withTelemetry | withAssertionFailure | withSafeDetails
@@ -157,6 +166,8 @@ def classify (k : Str) : KeyClass :=
   else if k = k_barrier then .barrier
   else if k = k_barrierPrev then .barrierPrev
   else if k = k_join then .join
+  else if k = k_grpcStatus then .grpcStatus
+  else if k = k_gogoStatus then .gogoStatus
   else if k = k_pkgWithMessage then .pkgWithMessage
   else if k = k_pathError then .pathError
   else if k = k_linkError then .linkError
@@ -176,6 +187,13 @@ def classify (k : Str) : KeyClass :=
   else if k = k_withAssertionFailure then .withAssertionFailure
   else if k = k_withSafeDetails then .withSafeDetails
   else .other
+
+/-- `logtags.Buffer.Add` overwrites an earlier tag with the same key (in place) -/
+def addTag (acc : List (Str × Str)) (kv : Str × Str) : List (Str × Str) :=
+  if acc.any (fun x => x.1 = kv.1) then acc.map (fun x => if x.1 = kv.1 then (x.1, kv.2) else x)
+  else acc ++ [kv]
+
+def dedupTags (l : List (Str × Str)) : List (Str × Str) := l.foldl addTag []
 
 def redactSprintPlain (msg : Str) : RStr := encloseUnsafe msg   -- redact.Sprint(msg) of an unsafe string
 
@@ -216,16 +234,24 @@ def buildLeaf (path : List Nat) (msg : Str) (d : Det) (hid : List Enc)
   | .barrier =>
     (match hid with
     | _ :: _ => hd.map (fun m => .barrier path msg m)
-    | [] => none)            -- unchecked type assertion on the payload: panic
+    | [] => opq)             -- payload is not an EncodedError: nil, opaque fallback
   | .barrierPrev =>
     (match hid with
     | _ :: _ => hd.map (fun m => .barrier path (redactSprintPlain msg) m)
-    | [] => none)
+    | [] => opq)
   | .join =>
     (match cs with
     | none => none
     | some [] => opq          -- Join() of nothing is nil
     | some l => some (.multi path .join l))
+  | .grpcStatus =>
+    (match hid, d.pay with
+    | [], .status c m nd => if c = 0 then opq else some (.leaf path (.grpcStatus c m nd))
+    | _, _ => opq)
+  | .gogoStatus =>
+    (match hid, d.pay with
+    | [], .status c m nd => if c = 0 then opq else some (.leaf path (.gogoStatus c m nd))
+    | _, _ => opq)
   | _ => payloadErr
 
 def buildWrap (path : List Nat) (msg : Str) (d : Det) (mt : Nat) (hid : List Enc)
@@ -262,7 +288,7 @@ def buildWrap (path : List Nat) (msg : Str) (d : Det) (mt : Nat) (hid : List Enc
     | _, _ => some opq)
   | .withMark =>
     (match hid, d.pay with
-    | [], .mark m t => some (.wrap path (.withMark m t) c)
+    | [], .mark m t => if t = [] then some opq else some (.wrap path (.withMark m t) c)
     | _, _ => some opq)
   | .withSecondary =>
     (match hid with
@@ -270,16 +296,18 @@ def buildWrap (path : List Nat) (msg : Str) (d : Det) (mt : Nat) (hid : List Enc
     | [] => some opq)
   | .withContext =>
     (match hid, d.pay with
-    | [], .tags l => if l = [] ∧ d.rep = [] then some opq else some (.wrap path (.withContext l (some d.rep)) c)
+    | [], .tags l =>
+      if l = [] ∧ d.rep = [] then some opq
+      else some (.wrap path (.withContext (dedupTags l) (if d.rep = [] then none else some d.rep)) c)
     | _, _ => some opq)
   | .withHTTPCode =>
     (match hid, d.pay with
     | [], .http n => some (.wrap path (.withHTTPCode n) c)
-    | _, _ => none)          -- unchecked type assertion: panic
+    | _, _ => some opq)
   | .withGrpcCode =>
     (match hid, d.pay with
     | [], .grpc n => some (.wrap path (.withGrpcCode n) c)
-    | _, _ => none)
+    | _, _ => some opq)
   | .withDomain =>
     (match d.rep with
     | dom :: _ => some (.wrap path (.withDomain dom) c)
